@@ -175,7 +175,7 @@ class OrsoTypes(str, Enum):
                 warn("Column type BSON will be deprecated in a future version, use JSONB instead.")
                 _type = OrsoTypes.JSONB
             elif parsed_types == "STRING":
-                raise ValueError(f"Unknown type '{_type}'. Did you mean 'VARCHAR'?")
+                raise ValueError(f"Unknown type '{name}'. Did you mean 'VARCHAR'?")
             elif (
                 type_name == "0"
                 or type_name == 0
@@ -213,7 +213,7 @@ class OrsoTypes(str, Enum):
             _type = OrsoTypes.BLOB
             _length = parsed_types[1][0]
         else:
-            raise ValueError(f"Unknown column type '{_type}'.")
+            raise ValueError(f"Unknown column type '{name}'.")
 
         return (_type, _length, _precision, _scale, _element_type)
 
